@@ -102,6 +102,20 @@ def rule_cli_generate(ctx):
     for n in fl.calls():
         if n['k'] == 'mcall' and n['method'].startswith('set_') and ctx.pv.local_fns(n.get('callee')):
             setters.setdefault(n['method'], []).append(n)
+        # a setter handed over as a function item (`options.set_if_given(value, Options::set_x)`): the value is the
+        # other argument of that call
+        for i_, a_ in enumerate(n.get('args', [])):
+            x_ = a_
+            while x_.get('k') in ('ref', 'wrap'):
+                x_ = x_['e']
+            if x_.get('k') == 'path' and x_['res'].get('r') == 'def' and x_['res'].get('dk') in ('AssocFn', 'Fn'):
+                nm_ = x_['res']['path'].split('::')[-1]
+                if nm_.startswith('set_') and ctx.pv.local_fns({'path': x_['res']['path'], 'resolved': x_.get('resolved')}):
+                    others = [b_ for j_, b_ in enumerate(n['args']) if j_ != i_]
+                    if others:
+                        pseudo = {'k': 'mcall', 'method': nm_, 'args': others, 'recv': n.get('recv', others[0]), 'sp': n.get('sp', ''), 'id': n.get('id')}
+                        fl.owner[id(pseudo)] = fl.owner_of(n)
+                        setters.setdefault(nm_, []).append(pseudo)
     for setter, (field, longname) in FLAG_TABLE.items():
         inst = 'generate/' + setter
         calls = setters.get(setter, [])
@@ -209,7 +223,7 @@ def rule_cli_generate(ctx):
             fcalls = fl.calls_of(fmt_fn)
             for n in fcalls:
                 pcs = fl.path_conds(n)
-                guarded = any(pc[0] == 'if' and 'no_formatting' in repr(ctx.pv.eval(o_, pc[1], {}, 0)) for o_, pc in pcs)
+                guarded = any(pc[0] in ('if', 'match') and 'no_formatting' in repr(ctx.pv.eval(o_, pc[1], fl.env_of(o_), 0)) + repr(ctx.pv.eval(o_, pc[1], {}, 0)) for o_, pc in pcs)
                 if guarded:
                     obs.append(ok('OUT-CONTENT', 'generate/rustfmt', 'rustfmt applied only when --no-formatting is absent', n.get('sp', '')))
                 else:
@@ -327,10 +341,15 @@ def rule_introspect(ctx):
         f0 = {f for f in TM.fields_in(a0) if f.startswith('Header.')}
         f1 = {f for f in TM.fields_in(a1) if f.startswith('Header.')}
         itn = H.iteration_of(fl.owner_of(h), h)
+        h_owner = fl.owner_of(h)
+        if itn is None and h_owner is not fn:
+            # the header is added in a helper that is called once per --header
+            itn = H.iteration_of(fn, fl.proxy[id(h)])
+            h_owner = fn
         loop = itn is not None
         if f0 == {'Header.name'} and f1 == {'Header.value'} and loop:
-            itt = fl.eval(itn[1])
-            if itt[:1] == ('param',) and itt[3] == 'headers' and not (_chain(fl.owner_of(h), itn[1]) & {'filter', 'take', 'skip', 'step_by', 'take_while', 'skip_while', 'filter_map', 'dedup'}):
+            itt = ctx.pv.eval(h_owner, itn[1], fl.env_of(h_owner), 0)
+            if itt[:1] == ('param',) and itt[3] == 'headers' and not (_chain(h_owner, itn[1]) & {'filter', 'take', 'skip', 'step_by', 'take_while', 'skip_while', 'filter_map', 'dedup'}):
                 obs.append(ok('REQ-BUILD', 'introspect/custom-headers', 'every --header is added as (name, value)', h.get('sp', '')))
             else:
                 obs.append(bad('REQ-BUILD', 'introspect/custom-headers', 'header loop does not cover all given headers', h.get('sp', ''), 'some headers are not sent'))
@@ -402,7 +421,7 @@ def rule_introspect(ctx):
             pairs = [(None, q, o)]
         else:
             # computed fields: decide which constants they are for each flag combination
-            benv = H.sym_env(bf)
+            benv = fl.env_of(bf) if bf.key in fl.caller or bf is fn else H.sym_env(bf)
             qt = ctx.pv.eval(bf, f['query'], benv, 0) if 'query' in f else ('absent',)
             ot = ctx.pv.eval(bf, f['operation_name'], benv, 0) if 'operation_name' in f else ('absent',)
             pairs = []
